@@ -72,12 +72,25 @@ def run_group_ways(members, records, base, ways):
         if len(r.members) != len(members):
             return {"harness": f"{len(r.members)} members created for {len(members)} csvpaths", "texts": texts, "method": method}
         collecting = method == "collect_paths"
+        # the lines each member collected in this run (its own data.csv), where the method collects
+        kept = None
+        if method in ("collect_paths", "next_paths", "collect_by_line", "next_by_line"):
+            try:
+                results = cp.results_manager.get_named_results("g")
+                kept = [pharness.read_csv(os.path.join(res.instance_dir, "data.csv")) or [] for res in results]
+            except Exception:
+                import traceback
+
+                return {"harness": traceback.format_exc()[-1200:], "texts": texts, "records": records, "method": method}
         for mi, mc in enumerate(members):
             tid = base + 10 + wi * 10 + mi
             try:
                 rec = grouprun.member_trace(tid, mc, r.members[mi], collecting=collecting, records=records)
             except runtrace.OutOfModel:
                 return {"oom": True}
+            if kept is not None and mi < len(kept):
+                rec["final"]["lines"] = [[runtrace.txt(c) for c in l] for l in kept[mi]]
+                rec["_lines"] = True
             traces.append(rec)
             infos[tid] = {"way": f"{method}{' if_all_agree' if all_agree else ''}", "member": mi, "csvpath": texts[mi],
                           "records": records, "events": [{"k": e["k"], "ret": e["ret"], "votes": e["votes"], "vars": repr(e["vars"])[:200]} for e in r.members[mi]["events"]]}
@@ -107,7 +120,7 @@ def run_group_ways(members, records, base, ways):
     same = []
     for mi in range(nm):
         mine = [t for t in traces[nm:] if (t["tid"] - base - 10) % 10 == mi]
-        c = samerun.case(base + mi, traces[mi], [samerun.other(t, "same", lines=False, unmatched=False) for t in mine])
+        c = samerun.case(base + mi, traces[mi], [samerun.other(t, "same", lines=bool(t.get("_lines")), unmatched=False) for t in mine])
         c["tids"] = [t["tid"] for t in mine]
         same.append(c)
     return {"traces": traces, "scheds": scheds, "infos": infos, "same": same}
